@@ -10,7 +10,7 @@ cd $D/verif
 (cd harness && CARGO_NET_OFFLINE=true cargo build --offline --bins 2>&1 | tail -1)
 props=""
 for pk in "$@"; do
-  p=${pk%-*}; props="$props $p"
+  p=${pk%%-*}; props="$props $p"
   (cd $D/repo && git checkout -q -- . && git clean -fdq tests 2>/dev/null; git apply /verif/seeded/$pk/patch.diff) || { echo "== $pk apply failed"; continue; }
   echo "== $pk"
   VERIF_REPO=$D/repo ./check $p --tier quick > /verif/work/seedruns/$pk.log 2>&1
